@@ -3,6 +3,7 @@ import math
 import numpy as np
 from hypothesis import strategies as st, assume
 
+from ..fuzz import fuzzed
 from ..core import Obligation, Out
 from .. import cat, rtools
 from ..strat import uni, logu, pos
@@ -409,3 +410,5 @@ OBLIGATIONS = [
 for _o in OBLIGATIONS:
     if _o.name in ('sedov-admissible', 'guderley-admissible', 'geneos-admissible', 'radshock-ED-admissible'):
         _o.cost = 50.0
+# coverage-guided supplement (atheris / libFuzzer over the same strategy and oracle; see vp/fuzz.py)
+OBLIGATIONS.append(fuzzed([o for o in OBLIGATIONS if o.name == 'igeos-admissible'][0], quick=0, thorough=40000, modules=('exactpack.solvers.riemann',)))
